@@ -478,10 +478,11 @@ static int check_pivot_policy(const ldc A[NMAX][NMAX], int n, const int_t *perm_
                               const int_t *usepr_rows, char *msg, size_t ml)
 {
     ldc W[NMAX][NMAX]; ld S[NMAX][NMAX];      /* working matrix in ORIGINAL row numbering, columns in A*Pc order */
+    int touched[NMAX][NMAX];                  /* entry has received an update: only then can it differ from the library's value by rounding */
     int inv_pc[NMAX], inv_pr[NMAX];
     for (int j = 0; j < n; j++) inv_pc[perm_c[j]] = j;
     for (int i = 0; i < n; i++) inv_pr[perm_r[i]] = i;
-    for (int i = 0; i < n; i++) for (int j = 0; j < n; j++) { W[i][j] = A[i][inv_pc[j]]; S[i][j] = ABSL(W[i][j]); }
+    for (int i = 0; i < n; i++) for (int j = 0; j < n; j++) { W[i][j] = A[i][inv_pc[j]]; S[i][j] = ABSL(W[i][j]); touched[i][j] = 0; }
     int done[NMAX] = { 0 };
     int usepr_alive = usepr_rows != NULL;
     for (int j = 0; j < n; j++) {
@@ -490,17 +491,19 @@ static int check_pivot_policy(const ldc A[NMAX][NMAX], int n, const int_t *perm_
         ld pivmax = 0, tolmax = 0;
         for (int i = 0; i < n; i++) if (!done[i]) {
             ld a = PIVABS(W[i][j]); if (a > pivmax) pivmax = a;
-            ld t = 64 * (ld)n * UOP * S[i][j]; if (t > tolmax) tolmax = t;
+            ld t = touched[i][j] ? 64 * (ld)n * UOP * S[i][j] : 0; if (t > tolmax) tolmax = t;      /* untouched original entries are exact: ties are then exact too */
         }
-        if (pivmax <= tolmax) { return -1; }            /* (near) singular column in the reference: not judged */
+        if (IS_COMPLEX && tolmax < 4 * (ld)UROUND * pivmax) tolmax = 4 * (ld)UROUND * pivmax;     /* CABS1 = |re|+|im| is itself rounded in working precision */
+        if (pivmax <= tolmax || pivmax == 0) { return -1; }            /* (near) singular column in the reference: not judged */
         ld thresh = u * pivmax, tol = tolmax * (1 + u);
+        if (tol == 0) thresh = (ld)(real_t)((real_t)u * (real_t)pivmax);      /* exact candidates: the threshold as the library rounds it */
         ld ap = PIVABS(W[p][j]);
         int judged = 0;
         if (usepr_alive) {
             int old = -1; for (int i = 0; i < n; i++) if (usepr_rows[i] == j) old = i;
             if (old >= 0 && !done[old]) {
                 ld ao = PIVABS(W[old][j]);
-                if (ao > tol && ao >= thresh + tol) {       /* old pivot clearly admissible: must be reused */
+                if (ao > tol && ao >= thresh + tol && (tol > 0 || ao >= thresh)) {       /* old pivot clearly admissible: must be reused */
                     if (p != old) { snprintf(msg, ml, "step %d: caller's pivot row %d is admissible (|v|=%.3Lg >= u*max=%.3Lg) but row %d was used", j, old, ao, thresh, p); return 1; }
                     judged = 1;
                 } else if (!(ao < thresh - tol || ao == 0)) { judged = 1; if (p != old) usepr_alive = 0; } /* inside the tie band: either */
@@ -523,7 +526,7 @@ static int check_pivot_policy(const ldc A[NMAX][NMAX], int n, const int_t *perm_
         if (W[p][j] == 0) return -1;
         for (int i = 0; i < n; i++) if (!done[i] && W[i][j] != 0) {
             ldc l = W[i][j] / W[p][j]; ld la = ABSL(l);
-            for (int k = j + 1; k < n; k++) { W[i][k] -= l * W[p][k]; S[i][k] += la * S[p][k]; }
+            for (int k = j + 1; k < n; k++) if (W[p][k] != 0) { W[i][k] -= l * W[p][k]; S[i][k] += la * S[p][k]; touched[i][k] = 1; }
         }
     }
     return 0;
